@@ -929,6 +929,7 @@ def run(ctx):
     for k, n in sorted(by.items()):
         ctx.note('failing: %s on %s, %s mode, %s (%s): %d step(s)' % (k + (n,)))
     ctx.note('binding self-test: ' + self_test(ctx, graphs))
+    ctx.note('binding self-test (environment walks): ' + env_self_test(ctx, dict(zip(envs, egraphs))))
     ctx.failures = [f for f in ctx.failures if f.clause.startswith(OWNER[pid])]
     status, nviol, nknown = common.conclude(ctx)
     sample_job = jobs[len(jobs) // 2]
@@ -1005,6 +1006,105 @@ def self_test(ctx, graphs):
         rig.close()
     return ('an expected state with the separator removed is rejected (%s); an object whose sendline adds two separators and an '
             'object that logs after encoding are rejected' % ', '.join(sorted(cl)))
+
+
+def _follow(g, mode, labels, sock_tmo='none'):
+    """the steps (label, successor state) of the path with these labels from the initial state of `mode`"""
+    cur = [n for n in g.init if g.nodes[n]['mode'] == mode and g.nodes[n]['sockTmo'] == sock_tmo][0]
+    init = slim(g.nodes[cur])
+    steps = []
+    for lab in labels:
+        nxt = [d for l, d in g.edges[cur] if l == lab]
+        if not nxt:
+            raise tlc.TLCError('self-test: no transition %s' % lab)
+        cur = nxt[0]
+        steps.append((lab, slim(g.nodes[cur])))
+    return init, steps
+
+
+def env_self_test(ctx, egraphs):
+    """the environment walks reject (a) an expected state in which output that arrived between two awaited calls is not
+    in the read log, (b) an object that does not log such output, (c) an object whose socket is left non-blocking by a
+    read that timed out (the large send after it is cut short although the peer reads), (d) an object that writes its
+    send log after the write (a send that fails part-way leaves no trace)"""
+    said = []
+    # (a), (b): await walk on fdspawn
+    res, g = egraphs[('fd', 'await')]
+    init, steps = _follow(g, 'utf8', ['ACancel("cancel")', 'Arrive("nonascii")'])
+    rig = Rig('fd', 'utf8', init['logcfg'], ctx.work)
+    try:
+        c = rig.child
+        for k, (lab, succ) in enumerate(steps):
+            if [f for f in exec_step(rig, lab, copy.deepcopy(succ), k + 1, None, env='await') if f[0].startswith('C')]:
+                return 'skipped: the probe steps themselves fail on this tree (reported above)'
+        lab, succ = steps[1]
+
+        def drop(st):
+            st['logRead'], st['logAll'] = [], []
+        rig.fifo = []
+        c._buffer = type(c._buffer)()
+        c._before = type(c._before)()
+        cl = set(f[0] for f in exec_step(rig, lab, dict(copy.deepcopy(succ)), 3, None, tamper=drop, env='await'))
+        if 'C11:logfile_read' not in cl:
+            raise tlc.TLCError('self-test: an expected state without the late output in the read log was not noticed (%s)' % sorted(cl))
+        said.append('an expected state without the output that arrived after a cancelled awaited call is rejected (%s)' % ', '.join(sorted(x for x in cl if x.startswith('C'))))
+        orig = c._log
+
+        def lazy_log(s_, direction):
+            pw = c.async_pw_transport[0] if c.async_pw_transport else None
+            if direction == 'read' and pw is not None and pw.fut.done():
+                return
+            return orig(s_, direction)
+        c._log = lazy_log
+        rig.fifo = []
+        c._buffer = type(c._buffer)()
+        c._before = type(c._before)()
+        cl = set(f[0] for f in exec_step(rig, lab, copy.deepcopy(succ), 4, None, env='await'))
+        c._log = orig
+        if 'C11:logfile_read' not in cl:
+            raise tlc.TLCError('self-test: an object that does not log output arriving between two awaited calls was not noticed (%s)' % sorted(cl))
+        said.append('an object that does not log it is rejected')
+    finally:
+        rig.close()
+    # (c), (d): life walk on SocketSpawn
+    res, g = egraphs[('socket', 'life')]
+    init, steps = _follow(g, 'bytes', ['ReadTimeout("zero")', 'Send("big")'])
+    rig = Rig('socket', 'bytes', init['logcfg'], ctx.work, sock_tmo='none')
+    try:
+        c = rig.child
+        if [f for f in exec_step(rig, steps[0][0], copy.deepcopy(steps[0][1]), 1, None, env='life') if f[0].startswith('C')]:
+            return 'skipped: the probe steps themselves fail on this tree (reported above)'
+        rig.sock.settimeout(0)
+        cl = [f for f in exec_step(rig, steps[1][0], copy.deepcopy(steps[1][1]), 2, None, env='life') if f[0] == 'C08:peer-bytes']
+        rig.sock.settimeout(None)
+        if not cl or not cl[0][1].get('peer_got_a_proper_prefix'):
+            raise tlc.TLCError('self-test: a large send on a socket that was left non-blocking was not cut short / not noticed')
+        said.append('a socket left non-blocking after a read that timed out: the next large send reaches the reading peer cut short '
+                    '(%d of %d bytes) and is rejected' % (cl[0][1]['peer_got_len'], cl[0][1]['want_len']))
+    finally:
+        rig.close()
+    init, steps = _follow(g, 'bytes', ['Stalled("send","big")'], sock_tmo='user')
+    rig = Rig('socket', 'bytes', init['logcfg'], ctx.work, sock_tmo='user')
+    try:
+        c = rig.child
+        orig_send = c.send
+
+        def late_log_send(s_):
+            saved, c._log = c._log, (lambda *a: None)
+            try:
+                n = orig_send(s_)
+            finally:
+                c._log = saved
+            c._log(c._coerce_send_string(s_), 'send')
+            return n
+        c.send = late_log_send
+        cl = set(f[0] for f in exec_step(rig, steps[0][0], copy.deepcopy(steps[0][1]), 1, None, env='life'))
+        if 'C11:logfile_send' not in cl:
+            raise tlc.TLCError('self-test: an object that logs after the write was not noticed on a send that fails part-way (%s)' % sorted(cl))
+        said.append('an object that writes the send log after the write is rejected on a send that fails part-way')
+    finally:
+        rig.close()
+    return '; '.join(said)
 
 
 def replay(ctx):
